@@ -611,7 +611,7 @@ package stick
 //@   at "s.callMacro(macroDef{macro}, args...)" self: len(args) == len(exargs) && macro != nil
 //@   at "s.callMacro(macro, args...)" imported: len(args) == len(exargs) && istype(c, "macroSet")
 //@   at "errors.New(\"undefined macro: \" + CoerceString(k))" unknown: istype(c, "macroSet")
-//@   asserts@*parse.GetAttrExpr unknownerr: called("errors.New(\"undefined macro: \" + CoerceString(k))") ==> err != nil
+//@   asserts unknownerr: called("errors.New(\"undefined macro: \" + CoerceString(k))") ==> err != nil
 // C11: a name that is a macro of the receiver never falls through to the plain attribute lookup - whatever the
 // number of arguments (the three call forms agree)
 //@   at "GetAttr(c, k, args...)" notmacro: !istype(c, "macroSet") && !(istype(c, "selfValue") && in(s.localMacros, strspec(k)))
@@ -846,7 +846,7 @@ package stick
 // C17: the file is opened and read now: a name that cannot be read is an error of Load, not an empty template later
 //@   asserts loaded: err == nil ==> called("os.Open(path)") && called("ioutil.ReadAll(f)")
 // C03: the template's reader is over exactly the bytes read (nothing stripped or re-encoded)
-//@   at "bytes.NewReader(" whole: arg0 == contents
+//@   at "bytes.NewReader(" whole: arg0 == initial(contents)
 //@   ensures files: openfiles() == old(openfiles())
 //@   ensures ok: err == nil ==> r0 != nil
 
